@@ -949,7 +949,7 @@ class XMLSchemaBase(XsdValidator, ElementPathMixin[Union[SchemaType, XsdElement]
             return self.maps.elements.get(tag)
         elif path[-1] == '*':
             xsd_element = self.find(path[:-1] + tag, namespaces)
-            if isinstance(xsd_element, XsdElement):
+            if isinstance(xsd_element, XsdElement) and xsd_element.name == tag:
                 return xsd_element
             else:
                 return self.maps.elements.get(tag)
